@@ -1,26 +1,48 @@
 /-
 Frame lemmas for the inbound-STUN model (`RtcModel/IceAuth.lean`): which fields each block of
-`handle_stun_request` can touch. Core Lean only.
+`handle_stun_request` / `run_keepalive_tick` can touch. Core Lean only.
 -/
 import RtcModel.IceAuth
 
 namespace RtcModel.IceAuth
 open RtcModel.Stun RtcModel.IcePrio RtcModel.C16Bytes
 
+/-- the fields no inbound request block ever writes -/
+def St.frame (s : St) :=
+  (s.pending, s.role, s.locals, s.latching, s.webrtc, s.now, s.hasRemoteParams, s.discThreshold, s.connTimeout)
+
+/-! ### publish -/
+@[simp] theorem publish_frame (s : St) (p : Pair) (k : Sock) : (publish s p k).frame = s.frame := by
+  unfold publish; repeat' split
+  all_goals rfl
+@[simp] theorem publish_remotes (s : St) (p : Pair) (k : Sock) : (publish s p k).remotes = s.remotes := by
+  unfold publish; repeat' split
+  all_goals rfl
+@[simp] theorem publish_selected (s : St) (p : Pair) (k : Sock) : (publish s p k).selected = s.selected := by
+  unfold publish; repeat' split
+  all_goals rfl
+@[simp] theorem publish_nominated (s : St) (p : Pair) (k : Sock) : (publish s p k).nominated = s.nominated := by
+  unfold publish; repeat' split
+  all_goals rfl
+@[simp] theorem publish_state (s : St) (p : Pair) (k : Sock) : (publish s p k).state = s.state := by
+  unfold publish; repeat' split
+  all_goals rfl
+@[simp] theorem publish_lastRx (s : St) (p : Pair) (k : Sock) : (publish s p k).lastRx = s.lastRx := by
+  unfold publish; repeat' split
+  all_goals rfl
+
 /-! ### learn -/
-@[simp] theorem learn_pending (s : St) (k : Sock) (a : Addr) : (learn s k a).pending = s.pending := by
-  unfold learn; split <;> rfl
-@[simp] theorem learn_role (s : St) (k : Sock) (a : Addr) : (learn s k a).role = s.role := by
-  unfold learn; split <;> rfl
-@[simp] theorem learn_locals (s : St) (k : Sock) (a : Addr) : (learn s k a).locals = s.locals := by
-  unfold learn; split <;> rfl
-@[simp] theorem learn_latching (s : St) (k : Sock) (a : Addr) : (learn s k a).latching = s.latching := by
+@[simp] theorem learn_frame (s : St) (k : Sock) (a : Addr) : (learn s k a).frame = s.frame := by
   unfold learn; split <;> rfl
 @[simp] theorem learn_selected (s : St) (k : Sock) (a : Addr) : (learn s k a).selected = s.selected := by
   unfold learn; split <;> rfl
 @[simp] theorem learn_nominated (s : St) (k : Sock) (a : Addr) : (learn s k a).nominated = s.nominated := by
   unfold learn; split <;> rfl
 @[simp] theorem learn_state (s : St) (k : Sock) (a : Addr) : (learn s k a).state = s.state := by
+  unfold learn; split <;> rfl
+@[simp] theorem learn_lastRx (s : St) (k : Sock) (a : Addr) : (learn s k a).lastRx = s.lastRx := by
+  unfold learn; split <;> rfl
+@[simp] theorem learn_selSock (s : St) (k : Sock) (a : Addr) : (learn s k a).selSock = s.selSock := by
   unfold learn; split <;> rfl
 theorem learn_remotes (s : St) (k : Sock) (a : Addr) :
     (learn s k a).remotes = if s.remotes.any (fun c => c.address = a) then s.remotes else s.remotes ++ [prflxCand k a] := by
@@ -30,84 +52,61 @@ theorem learn_known (s : St) (k : Sock) (a : Addr) (h : s.remotes.any (fun c => 
   unfold learn; simp [h]
 
 /-! ### latch -/
-@[simp] theorem latch_pending (s : St) (a : Addr) : (latch s a).pending = s.pending := by
+@[simp] theorem latch_frame (s : St) (k : Sock) (a : Addr) : (latch s k a).frame = s.frame := by
   unfold latch; repeat' split
-  all_goals rfl
-@[simp] theorem latch_role (s : St) (a : Addr) : (latch s a).role = s.role := by
+  all_goals simp [St.frame]
+  all_goals (have := publish_frame { s with selected := some { loc := (‹Pair›).loc, rem := { (‹Pair›).rem with address := a } } } { loc := (‹Pair›).loc, rem := { (‹Pair›).rem with address := a } } k; simpa [St.frame] using this)
+@[simp] theorem latch_remotes (s : St) (k : Sock) (a : Addr) : (latch s k a).remotes = s.remotes := by
   unfold latch; repeat' split
-  all_goals rfl
-@[simp] theorem latch_locals (s : St) (a : Addr) : (latch s a).locals = s.locals := by
+  all_goals simp
+@[simp] theorem latch_nominated (s : St) (k : Sock) (a : Addr) : (latch s k a).nominated = s.nominated := by
   unfold latch; repeat' split
-  all_goals rfl
-@[simp] theorem latch_latching (s : St) (a : Addr) : (latch s a).latching = s.latching := by
+  all_goals simp
+@[simp] theorem latch_state (s : St) (k : Sock) (a : Addr) : (latch s k a).state = s.state := by
   unfold latch; repeat' split
-  all_goals rfl
-@[simp] theorem latch_remotes (s : St) (a : Addr) : (latch s a).remotes = s.remotes := by
+  all_goals simp
+@[simp] theorem latch_lastRx (s : St) (k : Sock) (a : Addr) : (latch s k a).lastRx = s.lastRx := by
   unfold latch; repeat' split
-  all_goals rfl
-@[simp] theorem latch_nominated (s : St) (a : Addr) : (latch s a).nominated = s.nominated := by
-  unfold latch; repeat' split
-  all_goals rfl
-@[simp] theorem latch_state (s : St) (a : Addr) : (latch s a).state = s.state := by
-  unfold latch; repeat' split
-  all_goals rfl
-theorem latch_off (s : St) (a : Addr) (h : s.latching = false) : latch s a = s := by
+  all_goals simp
+theorem latch_off (s : St) (k : Sock) (a : Addr) (h : s.latching = false) : latch s k a = s := by
   unfold latch; simp [h]
 
 /-! ### withPairConnected -/
-@[simp] theorem wpc_pending (s : St) (p : Option Pair) : (withPairConnected s p).pending = s.pending := by
-  cases p <;> rfl
-@[simp] theorem wpc_role (s : St) (p : Option Pair) : (withPairConnected s p).role = s.role := by
-  cases p <;> rfl
-@[simp] theorem wpc_locals (s : St) (p : Option Pair) : (withPairConnected s p).locals = s.locals := by
-  cases p <;> rfl
-@[simp] theorem wpc_latching (s : St) (p : Option Pair) : (withPairConnected s p).latching = s.latching := by
+@[simp] theorem wpc_frame (s : St) (p : Option Pair) : (withPairConnected s p).frame = s.frame := by
   cases p <;> rfl
 @[simp] theorem wpc_remotes (s : St) (p : Option Pair) : (withPairConnected s p).remotes = s.remotes := by
   cases p <;> rfl
+@[simp] theorem wpc_lastRx (s : St) (p : Option Pair) : (withPairConnected s p).lastRx = s.lastRx := by
+  cases p <;> rfl
 
 /-! ### tcpNominate -/
-@[simp] theorem tcpNominate_pending (s : St) (k : Sock) (a : Addr) : (tcpNominate s k a).pending = s.pending := by
+@[simp] theorem tcpNominate_frame (s : St) (k : Sock) (a : Addr) : (tcpNominate s k a).frame = s.frame := by
   unfold tcpNominate; repeat' split
-  all_goals simp
-@[simp] theorem tcpNominate_role (s : St) (k : Sock) (a : Addr) : (tcpNominate s k a).role = s.role := by
-  unfold tcpNominate; repeat' split
-  all_goals simp
-@[simp] theorem tcpNominate_locals (s : St) (k : Sock) (a : Addr) : (tcpNominate s k a).locals = s.locals := by
-  unfold tcpNominate; repeat' split
-  all_goals simp
-@[simp] theorem tcpNominate_latching (s : St) (k : Sock) (a : Addr) : (tcpNominate s k a).latching = s.latching := by
-  unfold tcpNominate; repeat' split
-  all_goals simp
+  all_goals first | rfl | (have := wpc_frame s (tcpPair s k a); simpa [St.frame] using this)
 @[simp] theorem tcpNominate_remotes (s : St) (k : Sock) (a : Addr) : (tcpNominate s k a).remotes = s.remotes := by
   unfold tcpNominate; repeat' split
   all_goals simp
+@[simp] theorem tcpNominate_lastRx (s : St) (k : Sock) (a : Addr) : (tcpNominate s k a).lastRx = s.lastRx := by
+  unfold tcpNominate; repeat' split
+  all_goals simp
 theorem tcpNominate_id (s : St) (k : Sock) (a : Addr)
-    (h : s.role = .controlling ∨ k.isTcpStream = false ∨ s.nominated.isSome = true) : tcpNominate s k a = s := by
+    (h : s.role = .controlling ∨ k.isTcpStream = false) : tcpNominate s k a = s := by
   unfold tcpNominate
-  rcases h with h | h | h
+  rcases h with h | h
   · simp [h]
   · by_cases hr : s.role ≠ .controlled <;> simp [hr, h]
-  · by_cases hr : s.role ≠ .controlled
-    · simp [hr]
-    · by_cases hk : k.isTcpStream = true <;> simp [hr, hk, h]
 
 /-! ### useCandidate -/
-@[simp] theorem useCandidate_pending (s : St) (k : Sock) (a : Addr) : (useCandidate s k a).pending = s.pending := by
+@[simp] theorem useCandidate_frame (s : St) (k : Sock) (a : Addr) : (useCandidate s k a).frame = s.frame := by
   unfold useCandidate; repeat' split
-  all_goals rfl
-@[simp] theorem useCandidate_role (s : St) (k : Sock) (a : Addr) : (useCandidate s k a).role = s.role := by
-  unfold useCandidate; repeat' split
-  all_goals rfl
-@[simp] theorem useCandidate_locals (s : St) (k : Sock) (a : Addr) : (useCandidate s k a).locals = s.locals := by
-  unfold useCandidate; repeat' split
-  all_goals rfl
-@[simp] theorem useCandidate_latching (s : St) (k : Sock) (a : Addr) : (useCandidate s k a).latching = s.latching := by
-  unfold useCandidate; repeat' split
-  all_goals rfl
+  all_goals first | rfl | (simp only [St.frame]; simp)
+  all_goals (have := publish_frame { s with selected := some ‹Pair› } ‹Pair› k; simpa [St.frame] using this)
 @[simp] theorem useCandidate_remotes (s : St) (k : Sock) (a : Addr) : (useCandidate s k a).remotes = s.remotes := by
   unfold useCandidate; repeat' split
-  all_goals rfl
+  all_goals simp
+@[simp] theorem useCandidate_lastRx (s : St) (k : Sock) (a : Addr) : (useCandidate s k a).lastRx = s.lastRx := by
+  unfold useCandidate; repeat' split
+  all_goals simp
 theorem useCandidate_id (s : St) (k : Sock) (a : Addr) (h : s.role = .controlling ∨ k.isTcpStream = true) :
     useCandidate s k a = s := by
   unfold useCandidate
@@ -116,39 +115,133 @@ theorem useCandidate_id (s : St) (k : Sock) (a : Addr) (h : s.role = .controllin
   · by_cases hr : s.role ≠ .controlled <;> simp [hr, h]
 
 /-! ### handleAuthenticated / handleRequest -/
-@[simp] theorem handleAuthenticated_pending (s : St) (k : Sock) (a : Addr) (r : Req) :
-    (handleAuthenticated s k a r).pending = s.pending := by
-  unfold handleAuthenticated; split <;> simp
-@[simp] theorem handleAuthenticated_role (s : St) (k : Sock) (a : Addr) (r : Req) :
-    (handleAuthenticated s k a r).role = s.role := by
-  unfold handleAuthenticated; split <;> simp
-@[simp] theorem handleAuthenticated_locals (s : St) (k : Sock) (a : Addr) (r : Req) :
-    (handleAuthenticated s k a r).locals = s.locals := by
-  unfold handleAuthenticated; split <;> simp
-@[simp] theorem handleAuthenticated_latching (s : St) (k : Sock) (a : Addr) (r : Req) :
-    (handleAuthenticated s k a r).latching = s.latching := by
+@[simp] theorem handleAuthenticated_frame (s : St) (k : Sock) (a : Addr) (r : Req) :
+    (handleAuthenticated s k a r).frame = s.frame := by
   unfold handleAuthenticated; split <;> simp
 theorem handleAuthenticated_remotes (s : St) (k : Sock) (a : Addr) (r : Req) :
     (handleAuthenticated s k a r).remotes = (learn s k a).remotes := by
   unfold handleAuthenticated; split <;> simp
+@[simp] theorem handleAuthenticated_lastRx (s : St) (k : Sock) (a : Addr) (r : Req) :
+    (handleAuthenticated s k a r).lastRx = s.lastRx := by
+  unfold handleAuthenticated; split <;> simp
 
-@[simp] theorem handleRequest_pending (s : St) (k : Sock) (a : Addr) (r : Req) :
-    (handleRequest s k a r).pending = s.pending := by
-  unfold handleRequest; split <;> simp
-@[simp] theorem handleRequest_role (s : St) (k : Sock) (a : Addr) (r : Req) :
-    (handleRequest s k a r).role = s.role := by
-  unfold handleRequest; split <;> simp
-@[simp] theorem handleRequest_locals (s : St) (k : Sock) (a : Addr) (r : Req) :
-    (handleRequest s k a r).locals = s.locals := by
-  unfold handleRequest; split <;> simp
-@[simp] theorem handleRequest_latching (s : St) (k : Sock) (a : Addr) (r : Req) :
-    (handleRequest s k a r).latching = s.latching := by
-  unfold handleRequest; split <;> simp
+@[simp] theorem handleRequest_frame (s : St) (k : Sock) (a : Addr) (r : Req) :
+    (handleRequest s k a r).frame = s.frame := by
+  unfold handleRequest; split
+  · rw [handleAuthenticated_frame]; rfl
+  · rfl
 theorem handleRequest_unauth (s : St) (k : Sock) (a : Addr) (r : Req) (hw : s.webrtc = true) (hr : r.accepted = false) :
     handleRequest s k a r = s := by
   simp [handleRequest, hw, hr]
 theorem handleRequest_auth (s : St) (k : Sock) (a : Addr) (r : Req) (h : s.webrtc = false ∨ r.accepted = true) :
-    handleRequest s k a r = handleAuthenticated s k a r := by
+    handleRequest s k a r = handleAuthenticated { s with lastRx := s.now } k a r := by
   rcases h with h | h <;> simp [handleRequest, h]
+
+/-- projections of the frame, as rewriting rules -/
+theorem frame_pending {s t : St} (h : s.frame = t.frame) : s.pending = t.pending := congrArg (·.1) h
+theorem frame_role {s t : St} (h : s.frame = t.frame) : s.role = t.role := congrArg (·.2.1) h
+theorem frame_locals {s t : St} (h : s.frame = t.frame) : s.locals = t.locals := congrArg (·.2.2.1) h
+theorem frame_latching {s t : St} (h : s.frame = t.frame) : s.latching = t.latching := congrArg (·.2.2.2.1) h
+theorem frame_webrtc {s t : St} (h : s.frame = t.frame) : s.webrtc = t.webrtc := congrArg (·.2.2.2.2.1) h
+theorem frame_now {s t : St} (h : s.frame = t.frame) : s.now = t.now := congrArg (·.2.2.2.2.2.1) h
+
+@[simp] theorem handleRequest_pending (s : St) (k : Sock) (a : Addr) (r : Req) :
+    (handleRequest s k a r).pending = s.pending := frame_pending (handleRequest_frame s k a r)
+@[simp] theorem handleRequest_role (s : St) (k : Sock) (a : Addr) (r : Req) :
+    (handleRequest s k a r).role = s.role := frame_role (handleRequest_frame s k a r)
+@[simp] theorem handleRequest_locals (s : St) (k : Sock) (a : Addr) (r : Req) :
+    (handleRequest s k a r).locals = s.locals := frame_locals (handleRequest_frame s k a r)
+@[simp] theorem handleRequest_webrtc (s : St) (k : Sock) (a : Addr) (r : Req) :
+    (handleRequest s k a r).webrtc = s.webrtc := frame_webrtc (handleRequest_frame s k a r)
+
+/-! ### tick -/
+@[simp] theorem tickState_webrtc (s : St) : (tickState s).webrtc = s.webrtc := rfl
+@[simp] theorem tick_webrtc (s : St) (tx : Bytes) : (tick s tx).1.webrtc = s.webrtc := rfl
+
+end RtcModel.IceAuth
+
+namespace RtcModel.IceAuth
+open RtcModel.Stun RtcModel.IcePrio RtcModel.C16Bytes
+
+/-! ### monotonicity of what an accepted request can do -/
+
+theorem tcpNominate_nominated_mono (x : St) (k : Sock) (a : Addr) :
+    (tcpNominate x k a).nominated = x.nominated ∨ (tcpNominate x k a).nominated = some true := by
+  unfold tcpNominate; repeat' split
+  all_goals simp
+theorem useCandidate_nominated_mono (x : St) (k : Sock) (a : Addr) :
+    (useCandidate x k a).nominated = x.nominated ∨ (useCandidate x k a).nominated = some true := by
+  unfold useCandidate; repeat' split
+  all_goals simp
+theorem tcpNominate_state_mono (x : St) (k : Sock) (a : Addr) :
+    (tcpNominate x k a).state = x.state ∨ (tcpNominate x k a).state = .connected := by
+  unfold tcpNominate withPairConnected; repeat' split
+  all_goals simp
+theorem useCandidate_state_mono (x : St) (k : Sock) (a : Addr) :
+    (useCandidate x k a).state = x.state ∨ (useCandidate x k a).state = .connected := by
+  unfold useCandidate; repeat' split
+  all_goals simp
+
+theorem handleAuthenticated_nominated_mono (s : St) (k : Sock) (a : Addr) (r : Req) :
+    (handleAuthenticated s k a r).nominated = s.nominated ∨ (handleAuthenticated s k a r).nominated = some true := by
+  unfold handleAuthenticated
+  have e : (latch (learn s k a) k a).nominated = s.nominated := by simp
+  split
+  · rcases useCandidate_nominated_mono (tcpNominate (latch (learn s k a) k a) k a) k a with h | h
+    · rcases tcpNominate_nominated_mono (latch (learn s k a) k a) k a with h' | h'
+      · left; rw [h, h', e]
+      · right; rw [h, h']
+    · right; exact h
+  · rcases tcpNominate_nominated_mono (latch (learn s k a) k a) k a with h' | h'
+    · left; rw [h', e]
+    · right; exact h'
+
+theorem handleAuthenticated_state_mono (s : St) (k : Sock) (a : Addr) (r : Req) :
+    (handleAuthenticated s k a r).state = s.state ∨ (handleAuthenticated s k a r).state = .connected := by
+  unfold handleAuthenticated
+  have e : (latch (learn s k a) k a).state = s.state := by simp
+  split
+  · rcases useCandidate_state_mono (tcpNominate (latch (learn s k a) k a) k a) k a with h | h
+    · rcases tcpNominate_state_mono (latch (learn s k a) k a) k a with h' | h'
+      · left; rw [h, h', e]
+      · right; rw [h, h']
+    · right; exact h
+  · rcases tcpNominate_state_mono (latch (learn s k a) k a) k a with h' | h'
+    · left; rw [h', e]
+    · right; exact h'
+
+theorem handleAuthenticated_controlling (s : St) (k : Sock) (a : Addr) (r : Req) (hr : s.role = .controlling)
+    (hl : s.latching = false) : handleAuthenticated s k a r = learn s k a := by
+  unfold handleAuthenticated
+  have hl' : (learn s k a).latching = false := by rw [frame_latching (learn_frame s k a)]; exact hl
+  simp only
+  rw [latch_off _ _ _ hl']
+  have hr' : (learn s k a).role = .controlling := by rw [frame_role (learn_frame s k a)]; exact hr
+  rw [tcpNominate_id _ _ _ (Or.inl hr'), useCandidate_id _ _ _ (Or.inl hr')]
+  simp
+
+end RtcModel.IceAuth
+
+namespace RtcModel.IceAuth
+open RtcModel.Stun RtcModel.IcePrio RtcModel.C16Bytes
+
+/-- one datagram: pending only shrinks, a delivered id was pending and is consumed, `Nodup` is kept -/
+theorem step_pending_subset (s : St) (sock : Sock) (src : Addr) (i : Inp) :
+    (∀ t, t ∈ (step s sock src i).1.pending → t ∈ s.pending) ∧
+    (∀ tx, (step s sock src i).2.delivered = some tx → tx ∈ s.pending ∧ tx ∉ (step s sock src i).1.pending) ∧
+    (s.pending.Nodup → (step s sock src i).1.pending.Nodup) := by
+  cases i with
+  | response tx e =>
+    by_cases h : tx ∈ s.pending
+    · simp only [step, handleResponse, h, ↓reduceIte]
+      refine ⟨fun t ht => (List.mem_filter.mp ht).1, ?_, fun hn => hn.filter _⟩
+      intro tx' htx'
+      simp only [Option.some.injEq] at htx'
+      subst htx'
+      exact ⟨h, by simp [List.mem_filter]⟩
+    · simp [step, handleResponse, h]
+  | request r => simp [step]
+  | empty | data | undecodable | indication => simp [step]
+
 
 end RtcModel.IceAuth
